@@ -4,7 +4,9 @@ package f1
 import (
 	"errors"
 	"log/slog"
+	"time"
 
+	"github.com/form3tech-oss/f1/v2/internal/metrics"
 	zz "github.com/form3tech-oss/f1/v2/internal/zzverif"
 	"github.com/form3tech-oss/f1/v2/pkg/f1/testing"
 )
@@ -14,8 +16,18 @@ const (
 	c20Fail
 	c20FailNow
 	c20Panic
+	c20TimedFailNow // FailNow raised inside a t.Time(...) stage
+	c20TimedPanic   // panic raised inside a t.Time(...) stage
 	c20N
 )
+
+// stand-in for the stage-duration metric written by T.Time (the global metrics instance is not the subject here)
+func c20RecordTime(_ *testing.T, _ string, _ time.Time) {}
+
+// c20Stops: the behaviour ends the component (and with it the rest of the iteration / setup)
+func c20Stops(beh int) bool {
+	return beh == c20FailNow || beh == c20Panic || beh == c20TimedFailNow || beh == c20TimedPanic
+}
 
 type c20Event struct {
 	comp, phase int // phase 0 = setup, 1.. = iteration number
@@ -30,6 +42,11 @@ func c20Act(t *testing.T, beh int) {
 		t.FailNow()
 	case c20Panic:
 		panic(errors.New("component panic"))
+	case c20TimedFailNow:
+		t.Time("stage", func() { t.FailNow() })
+		t.Fail() // not reached: the stage's FailNow unwinds through Time
+	case c20TimedPanic:
+		t.Time("stage", func() { panic(errors.New("panic in a timed stage")) })
 	}
 }
 
@@ -40,7 +57,7 @@ func c20Guarded(t *testing.T, fn func(*testing.T)) {
 }
 
 // VerifC20_Combined: a combination of n <= 3 components, each with an arbitrary setup behaviour and an arbitrary
-// per-iteration behaviour (pass / Fail / FailNow / panic, chosen symbolically), through the real CombineScenarios
+// per-iteration behaviour (pass / Fail / FailNow / panic / FailNow or panic raised inside a t.Time stage, chosen symbolically), through the real CombineScenarios
 // and the real T (FailNow sentinel, recover, failed flag): setups run once each, in order, on the setup handle,
 // up to and including the first that stops the setup; each of two iterations invokes the components' iteration
 // functions in the same order with THAT iteration's handle, stopping after the first FailNow/panic in that
@@ -48,7 +65,11 @@ func c20Guarded(t *testing.T, fn func(*testing.T)) {
 // all components again.
 //
 //verif:unroll 40
+//verif:replace $M/pkg/f1/testing.recordTime c20RecordTime
 func VerifC20_Combined() {
+	if zz.Native() {
+		metrics.Init(false) // T.Time records into the global metrics instance (symbolically: stand-in c20RecordTime)
+	}
 	maxN := 2
 	if zz.Thorough() {
 		maxN = 3
@@ -92,7 +113,7 @@ func VerifC20_Combined() {
 		sb := zz.Int("setupBeh", i)
 		if !setupStopped && sb != c20Pass {
 			setupFailed = true
-			if sb == c20FailNow || sb == c20Panic {
+			if c20Stops(sb) {
 				stopAt = i + 1
 				setupStopped = true
 			}
@@ -124,7 +145,7 @@ func VerifC20_Combined() {
 			rb := zz.Int("runBeh", it, i)
 			if !stopped && rb != c20Pass {
 				failed = true
-				if rb == c20FailNow || rb == c20Panic {
+				if c20Stops(rb) {
 					stop = i + 1
 					stopped = true
 				}
@@ -150,7 +171,11 @@ func VerifC20_Combined() {
 // two iterations invokes every component exactly once, in order, with nothing left over from round 1.
 //
 //verif:unroll 40
+//verif:replace $M/pkg/f1/testing.recordTime c20RecordTime
 func VerifC20_SetUpTwice() {
+	if zz.Native() {
+		metrics.Init(false)
+	}
 	n := zz.Choice("n", 2) + 1
 	var log []c20Event
 	round, iter := 1, 0
